@@ -138,17 +138,19 @@ def get_code_from_bytes(codedata, version):
     return code_length, code, compressed_size
 
 
-def get_bytes_from_code(code):
+def get_bytes_from_code(code, version=None):
     """Gets the byte data for code text.
 
     Args:
         code: The code text.
+        version: The version of the cart data. Version 0 carts are always
+            stored uncompressed, because readers never decompress them.
 
     Returns:
         The bytes for the code, possibly compressed.
     """
     compressed_bytes = compress.compress_code(code)
-    if len(compressed_bytes) < len(code):
+    if version != 0 and len(compressed_bytes) < len(code):
         # Use compressed.
         code_length_bytes = bytes([len(code) >> 8, len(code) & 255])
         code_bytes = b''.join(
@@ -277,7 +279,7 @@ class P8PNGFormatter(BaseFormatter):
 
         cart_lua = game.lua.to_lines(writer_cls=lua_writer_cls,
                                      writer_args=lua_writer_args)
-        code_bytes = get_bytes_from_code(b''.join(cart_lua))
+        code_bytes = get_bytes_from_code(b''.join(cart_lua), game.version)
 
         picodata = b''.join((game.gfx.to_bytes(),
                              game.map.to_bytes(),
